@@ -421,6 +421,7 @@ def check_oracle(dirname, oracles):
         if proc_res.failed:
             output[pid] = proc_res.stats
             continue
+        injected_err = proc_res.stats['error']
         for program, oracle in proc_res.stats['programs'].items():
             if oracle and program in failed:
                 # Here the program should be compiled successfully. However,
@@ -446,7 +447,7 @@ def check_oracle(dirname, oracles):
                 # would not be able to compile the program. However,
                 # the compiler managed to compile it successfully.
                 proc_res.stats['error'] = 'SHOULD NOT BE COMPILED: ' + \
-                    proc_res.stats['error']
+                    injected_err
                 output[pid] = proc_res.stats
                 if cli_args.debug:
                     msg = 'Mismatch found in program {}. Expected to fail'
@@ -456,7 +457,8 @@ def check_oracle(dirname, oracles):
                                    oracle)
                 shutil.copytree(
                     os.path.join(cli_args.test_directory, 'tmp', str(pid)),
-                    os.path.join(cli_args.test_directory, str(pid)))
+                    os.path.join(cli_args.test_directory, str(pid)),
+                    dirs_exist_ok=True)
         shutil.rmtree(os.path.join(cli_args.test_directory, 'tmp',
                                    str(pid)))
     # Clear the directory of programs.
